@@ -37,3 +37,40 @@ Proof.
   intros Hs Hf Hb Hw Hm. unfold union_assign. rewrite Hs, Hf. destruct buf as [|b0 r]; [congruence|].
   rewrite Hw. cbn [bind]. rewrite Hm. reflexivity.
 Qed.
+
+(* ---------- reading a union: every member is a view of the union's bytes ---------- *)
+Lemma union_loop_views : forall (items : list (string * option Z * rfn)) buf base last vals lctx ms q,
+  union_loop items buf base last vals lctx = Ok (ms, q) ->
+  exists news, ms = rev vals ++ news /\
+    Forall2 (fun it nv => fst nv = fst (fst it) /\
+                          exists lctx' q', snd it buf (base + match snd (fst it) with Some o => o | None => 0 end) lctx' = Ok (snd nv, q')) items news.
+Proof.
+  induction items as [|[[n fo] rd] r IH]; intros buf base last vals lctx ms q H; cbn [union_loop] in H.
+  - injection H as <- _. exists []. split; [now rewrite app_nil_r|constructor].
+  - destruct (rd buf (base + match fo with Some o => o | None => 0 end) lctx) as [[v p]|] eqn:E; [|discriminate]. cbn [bind fst snd] in H.
+    destruct (IH _ _ _ _ _ _ _ H) as [news [-> F]]. exists ((n, v) :: news). split; [cbn [rev]; now rewrite <- app_assoc|].
+    constructor; [|exact F]. cbn [fst snd]. split; [reflexivity|eauto].
+Qed.
+(* a union of static size: the value holds the bytes read (the union's size of them, fewer only at the end of input), the stream moves by exactly
+   those bytes, and every member's value is what its own type parses from those bytes at the member's offset *)
+Theorem union_read_views c fuel nm fs al sz s pos ctx v p :
+  l_size (layout_union c al fs) = Some sz -> read_ty c fuel (TUnion nm fs al) s pos ctx = Ok (v, p) ->
+  exists ms, v = VUnion (sread s pos sz) ms /\ p = pos + zlen (sread s pos sz) /\
+    Forall2 (fun f nv => fst nv = f_name f /\
+                         exists lctx q, read_ty c fuel (f_ty f) (sread s pos sz) (match f_off f with Some o => o | None => 0 end) lctx = Ok (snd nv, q)) fs ms.
+Proof.
+  intros Hs H. cbn [read_ty] in H. rewrite Hs in H.
+  destruct (union_loop _ (sread s pos sz) 0 0 [] []) as [[ms q]|] eqn:E; [|discriminate]. cbn [bind fst snd] in H. injection H as <- <-.
+  destruct (union_loop_views _ _ _ _ _ _ _ _ E) as [news [-> F]]. cbn [rev app]. exists news. split; [reflexivity|]. split; [reflexivity|].
+  clear E Hs. revert news F. induction fs as [|f r IH]; intros news F; inversion F as [|it nv its nvs [Hn [lctx [q' Hr]]] Fr]; subst; constructor.
+  - cbn [fst snd] in *. split; [exact Hn|]. exists lctx, q'. rewrite Z.add_0_l in Hr. exact Hr.
+  - apply IH. exact Fr.
+Qed.
+(* with the union's bytes all there, parsing consumes exactly the union's size *)
+Theorem union_read_consumes c fuel nm fs al sz s pos ctx v p :
+  l_size (layout_union c al fs) = Some sz -> 0 <= pos -> 0 <= sz -> sz <= zlen (srest s pos) ->
+  read_ty c fuel (TUnion nm fs al) s pos ctx = Ok (v, p) -> p = pos + sz.
+Proof.
+  intros Hs Hp H0 Hen H. destruct (union_read_views _ _ _ _ _ _ _ _ _ _ _ Hs H) as [ms [_ [-> _]]]. f_equal.
+  unfold zlen, sread, srest in *. rewrite firstn_length. lia.
+Qed.
